@@ -26,34 +26,69 @@ from levycases import INF, rlit, tol_lit, Case
 
 PROP = "C10"
 PROPERTY_FILE = "Properties/C10.v"
-GEN_DEPS = ["GenC10Triplet", "GenC10Hem", "GenC10Merton", "GenC10Vg", "GenC10Cgmy", "GenC10Bs", "GenC10Exp", "GenC09Hem"]
+GEN_DEPS = ["GenC10Triplet", "GenC10Hem", "GenC10Merton", "GenC10Vg", "GenC10Cgmy", "GenC10Bs", "GenC10Exp", "GenC10Jump", "GenC09Hem", "GenC09Vg"]
 RULE = ("oracle cases: (model, parameters, argument / order / route) for HEM, Merton, VG, CGMY (y<0, y=0, 0<y<1, y=1, 1<y<2) and "
         "Black-Scholes; arguments s inside the strip of the exponent and real u; cumulant orders 1,2,4(,6); routes cf / direct / ctmc; "
         "random sequences of 1-5 representation changes; non-trivial = non-zero argument / non-empty sequence; "
-        "Coq cases: interval lemmas per (model, function)")
+        "Coq cases: interval lemmas per (model, function): kappa, cumulants, drifts, omega, conversion sequences, jump_increment of HEM "
+        "(chosen uniforms, both branches and u == p, v = 0 and v next to 1) and Merton (replayed stream), process_drift / deterministic_path "
+        "of the non-exponential models, cached constants after __init__ and after setattr + initialisation(), the closed-form VG "
+        "Levy-Khintchine integral at the rebuilt model's constants")
 MODELLED = [
     "LevyModel.levy_exponent only on the real axis u = -i s (kappa(s) = a s + sigma^2 s^2/2 + pj(s)); complex arguments are checked by "
     "the oracle only",
     "LevyTriplet.set_representation (attribute mutation), omega, log_characteristic_function(t,-1j), deterministic_path, the "
     "Markov-chain drift: hand models in Model/LevyExponent.v tied by case lemmas / oracle",
     "scipy.special.gamma is an opaque function (Section variable Gamma); c*gamma(-y) enters the CGMY exponent as data",
-    "H_rep (the pure-jump exponent IS the Levy-Khintchine integral of the density in the declared representation) is proved for HEM; "
-    "for Merton (Gaussian integral), VG (Frullani) and CGMY (Gamma integrals) it is validated by the quadrature oracle only",
+    "H_rep (the pure-jump exponent IS the Levy-Khintchine integral of the density in the declared representation) is proved for HEM "
+    "(limits of finite integrals) and for Variance Gamma (Frullani, improper at 0 and at infinity: is_RInt_gen, no hypothesis); "
+    "for Merton (Gaussian integral) and CGMY (Gamma integrals) it is validated by the quadrature oracle only",
+    "jump_increment of HEM / Merton is translated POINTWISE (one jump; the k-th generator call of the straight-line body is the k-th "
+    "argument; plug-in harness/py2coq_c10.py); np.random.normal(loc, scale) is read as loc + scale * g, g standard normal (numpy's legacy "
+    "definition, checked by replaying the stream); that np.random.random is uniform on [0,1) and the draws independent is assumed; "
+    "the law of the sampler (measure of {(u,v): jump <= x}) is stated through the interval characterisation jump <= x <-> v <= cdf(x), "
+    "not as a measure-theoretic statement",
+    "Parameters.initialisation() of HEM / VG / CGMY is translated next to __init__ (cached _xi, _c, _lambda_p, _lambda_m, _CGammamY, "
+    "_GpowerY, _MpowerY); cgmy_pj reads _GpowerY / _MpowerY as Rpower g y / Rpower m y (specs/C10.py attrs), which "
+    "C10_after_initialisation proves equal to the generated cached constants; the MUTATION (setattr on a deepcopy) is exercised by the "
+    "correspondence and the oracle only",
+    "VarianceGammaModel's triplet drift is the literal a=0.0 inside a constructor call (not extracted): the theorem uses 0, the "
+    "levy-pd cases tie it",
 ]
-ASSUMPTIONS = ["parameters in their declared domain; eta1 > 1 for the exponential HEM model",
-               "direct route: the jump law simulated by jump_increment is the density nu (C02/C09)"]
+ASSUMPTIONS = ["parameters in their declared domain; eta1 > 1 for the exponential HEM model; VG: sigma > 0, nu > 0",
+               "direct route: np.random.random is uniform on [0,1), np.random.normal(loc, scale) = loc + scale * standard normal, draws independent; "
+               "given that, HEM's jump_increment has law nu / intensity by C10_hem_jump_inverse_cdf; Merton: oracle `_jump_law`"]
 THEOREM_NOTES = {
-    "count": "20 statements: 6 conversions (4 positive under the guard valid_rep, the modelled ValueError, the need-for-the-guard witness), "
-             "3 named _algebra (true by construction / conversion algebra), 3 direct-route identities on generated drifts, 4 cumulant theorems "
-             "(orders 1 and 2 only), C10_hem_exponent and C10_martingale_ctmc_hem (limits of integrals of the generated density), "
-             "C10_ctmc_truncation_bias_zero / _refuted (the chain route is NOT a martingale once the measure is truncated)",
+    "count": "26 statements (5 of them named _algebra): 6 conversions (4 positive under the guard valid_rep, the modelled ValueError, the need-for-the-guard witness), "
+             "5 named _algebra (true by construction / conversion algebra / Merton mean rate), 3 direct-route identities on generated drifts, "
+             "4 cumulant theorems (orders 1 and 2 only), C10_hem_exponent, C10_vg_exponent (Levy-Khintchine clause for two families), "
+             "C10_levy_direct_mean_hem / _vg (non-exponential process_drift gives the mean rate cumulant1), C10_hem_jump_inverse_cdf, "
+             "C10_after_initialisation, C10_martingale_ctmc_hem, C10_ctmc_truncation_bias_algebra, C10_ctmc_truncated_hem; 3 examples",
+    "C10_vg_exponent": "GENUINE proof, no hypothesis on special functions: for 0 < sigma, 0 < nu, -lambda_m < s < lambda_p the integral of "
+        "(e^{s x} - 1) vg_nu over (0, +oo) is c ln(lp/(lp-s)) and over (-oo, 0) is c ln(lm/(lm+s)) as Coquelicot improper integrals "
+        "(is_RInt_gen, filters at_right 0 / Rbar_locally p_infty and Rbar_locally m_infty / at_left 0), and vg_pj = their sum; c, lm, lp are the "
+        "generated VGParameters.__init__ constants (sqrt identities lp lm = 2/(nu sigma^2), lm - lp = 2 theta / sigma^2 proved), vg_nu is "
+        "C09's generated density; real axis only; sigma = 0 (excluded: the code divides by sigma^2) and nu <= 0 are outside",
+    "C10_levy_direct_mean_*": "mean rate of the directly simulated NON-exponential model = levy_process_drift a + first moment of nu = cumulant1(1) "
+        "(HEM: 0, VG: theta), the first moment being the limit of the integrals of x * generated density; that the simulated process is "
+        "drift t + sigma W + uncompensated jumps is the reading of the declared ZERO representation (process code: C15); Merton is _algebra: "
+        "lam mu_j is the sampler's mean for a symmetric g, E g = 0 not formalised; CGMY (declared CENTER / ZERO by branch): oracle only; "
+        "after set_representation the drift read by process_drift changes with the triplet: not covered by a theorem (oracle `_levy_model_drift_oracle` "
+        "uses the constructed model)",
+    "C10_hem_jump_inverse_cdf": "for all parameters 0 < eta1, eta2, every u and every v in [0,1): branch u < p: jump >= 0, cdf_up(jump) = v and "
+        "jump <= x <-> v <= 1 - exp(-eta1 x) (x >= 0); branch p <= u: jump <= 0, cdf_down(jump) = 1 - v (the survival function is inverted) and "
+        "jump <= x <-> 1 - exp(eta2 x) <= v (x <= 0); lam p cdf_up x = int_0^x hem_nu, lam (1-p) cdf_down x = lim int_a^x hem_nu; "
+        "uniformity / independence of u, v and P(u < p) = p (needs 0 <= p <= 1, guarded by HEMParameters) are NOT formalised; v = 1 is never "
+        "returned by random() (ln 0)",
+    "C10_after_initialisation": "the re-derived constants are syntactically the __init__ ones (both py2coq translations, proofs by reflexivity): "
+        "the content is the tie -- a change of initialisation() alone (stale or different formula) breaks the proof or the reinit cases",
     "C10_conversions_*": "every measure (first-moment function m1, finite-variation flag fv), every triplet, every sequence of ADMISSIBLE "
         "representations: valid_rep fv r := fv = true or r <> ZERO (the code raises ValueError for ZERO with infinite variation, fix a05eb0c); "
         "m1 is a total function: infinite first moments are outside the model (all shipped models have finite tail moments)",
     "C10_martingale_cf_algebra, C10_forward_direct_algebra, C10_ctmc_route_algebra": "ALGEBRA: omega = -kappa(1) cancels for any a, sigma, pj; Jc is a free "
         "number; they only say the hand-modelled formulas compose; content is in C10_hem_exponent / C10_martingale_ctmc_hem and in the oracle",
-    "C10_hem_exponent": "the Levy-Khintchine clause is proved for HEM only (whole strip -eta2 < s < eta1, real axis); Merton / VG / CGMY: "
-        "quadrature oracle only (needs the Gaussian, Frullani and Gamma integrals)",
+    "C10_hem_exponent": "the Levy-Khintchine clause for HEM (whole strip -eta2 < s < eta1, real axis); VG: C10_vg_exponent; Merton / CGMY: "
+        "quadrature oracle only (needs the Gaussian and Gamma integrals, not available in Coquelicot)",
     "C10_cumulants_*": "orders 1 and 2 only, as first/second derivative of kappa at 0 for HEM, Merton, VG; CGMY partial (cumulant1 in every branch, "
         "cumulant2 for y not in {0,1} given CG = c Gamma(-y) and Gamma(2-y) = (1-y)(-y)Gamma(-y) for an OPAQUE Gamma: a hypothesis, not a "
         "fact about scipy.special.gamma); orders 4 and 6 by the Cauchy-integral oracle only; orders 3, 5 are not offered by the library",
@@ -65,7 +100,7 @@ THEOREM_NOTES = {
         "(e^x-1-x) hem_nu over [l,r]: growth = r - d - removed_tail (closed form), < r - d when p = 1; other models / wider truncations: "
         "oracle only (finding F-C10-5, KNOWN, 1e-5 .. 7e-2 per year on the default grids, growing as h decreases)",
     "moment strip": "exponential models outside the strip (E exp(L_1) infinite) are refused by the code (fixes a7ff60d, 5d1e949): oracle `_strip_oracle`; "
-        "no theorem states the strip of VG / CGMY",
+        "C10_vg_exponent holds on the open strip (-lambda_m, lambda_p) but no theorem states divergence outside it; CGMY: none",
     "complex arguments of levy_exponent": "not modelled; oracle compares levy_exponent(u) at real u with the complex LK quadrature",
 }
 
@@ -605,7 +640,7 @@ def _strip_oracle(res, rng):
 HEADER = L.HEADER_COMMON + """From Coq Require Import List.
 Import ListNotations.
 From RV Require Import Base.RB Gen.GenC10Triplet Gen.GenC10Hem Gen.GenC10Merton Gen.GenC10Vg Gen.GenC10Cgmy Gen.GenC10Bs Gen.GenC10Exp
-  Model.LevyExponent Proofs.C10_Triplet Proofs.C10_Exponent.
+  Gen.GenC10Jump Model.LevyExponent Proofs.C10_Triplet Proofs.C10_Exponent Proofs.C10_VgLK.
 """
 
 I80 = "interval with (i_prec 80)."
@@ -724,6 +759,162 @@ def _drift_cases(res, rng, per_group):
     return cases
 
 
+def _sampler_cases(res, rng, per_group):
+    """jump_increment of HEM (the two uniforms it draws are replaced by chosen arrays, both branches u < p / p <= u, v near 0 and
+    near 1) and of Merton (the legacy stream is replayed through np.random.standard_normal under the same seed) against the
+    generated hem_jump / merton_jump; LevyModel.process_drift() and LevyProcess.deterministic_path of the NON-exponential models
+    against the generated levy_process_drift applied to the generated triplet drift"""
+    from rpylib.process.levyprocess import LevyProcess
+    cases = []
+    for k in range(per_group):
+        p = L.hem_params(rng)
+        model, _ = L.build("hem", p)
+        n = 6
+        us = [round(rng.uniform(0, p["p"]), 4) for _ in range(n // 2)] + [round(rng.uniform(p["p"], 1), 4) for _ in range(n - n // 2)]
+        us = [u if (u < p["p"]) == (i < n // 2) else (p["p"] / 2 if i < n // 2 else (1 + p["p"]) / 2) for i, u in enumerate(us)]
+        us[-1] = p["p"]                      # the boundary u == p takes the negative branch
+        vs = [rng.choice([0.0, 2.0 ** -20, round(rng.random(), 4), round(rng.random(), 4), 1 - 2.0 ** -30]) for _ in range(n)]
+        seq = [np.array(us), np.array(vs)]
+        orig = np.random.random
+        np.random.random = lambda size=None: seq.pop(0)
+        try:
+            z = np.asarray(model.jump_increment(n=n), dtype=float)
+        finally:
+            np.random.random = orig
+        if seq or z.shape != (n,):
+            res.broke("correspondence hem jump_increment", f"the sampler did not consume exactly two uniform arrays of size n (left {len(seq)}, shape {z.shape})")
+            continue
+        for u, v, zi in zip(us, vs, z):
+            up = u < p["p"]
+            tl, _ = tol_lit(float(zi))
+            br = "true by (symmetry; apply Rltb_true; lra)" if up else "false by (symmetry; apply Rltb_false; lra)"
+            cases.append(Case(("jump", "hem", "up" if up else "down"),
+                              f"Rabs (hem_jump {rlit(p['p'])} {rlit(p['eta1'])} {rlit(p['eta2'])} {rlit(u)} {rlit(v)} - {rlit(float(zi))}) <= {tl}",
+                              f"unfold hem_jump. cbv zeta. replace (Rltb _ _) with {br}. {I80}",
+                              dict(model="hem", params=p, u=u, v=v, impl=float(zi))))
+            res.count(("coq-jump", "hem", tuple(sorted(p.items())), u, v), nontrivial=v != 0, kind="coq hem jump_increment")
+            res.bump("hem_jump_branch", "u<p (positive jump)" if up else ("u==p" if u == p["p"] else "u>p (negative jump)"))
+        # Merton: same seed, same legacy stream
+        pm = L.merton_params(rng)
+        mm, _ = L.build("merton", pm)
+        seed = rng.randrange(1 << 30)
+        st = np.random.get_state()
+        try:
+            np.random.seed(seed)
+            zs = np.asarray(mm.jump_increment(n=3), dtype=float)
+            np.random.seed(seed)
+            gs = np.random.standard_normal(3)
+        finally:
+            np.random.set_state(st)
+        for g, zi in zip(gs, zs):
+            tl, _ = tol_lit(float(zi))
+            cases.append(Case(("jump", "merton"), f"Rabs (merton_jump {rlit(pm['mu_j'])} {rlit(pm['sigma_j'])} {rlit(float(g))} - {rlit(float(zi))}) <= {tl}",
+                              f"unfold merton_jump. {I80}", dict(model="merton", params=pm, g=float(g), seed=seed, impl=float(zi))))
+            res.count(("coq-jump", "merton", tuple(sorted(pm.items())), float(g)), kind="coq merton jump_increment")
+        # process_drift of the non-exponential models, through the model and through LevyProcess.deterministic_path
+        for kind, params in (("hem", p), ("merton", pm), ("vg", L.vg_params(rng)), ("cgmy", L.cgmy_params(rng))):
+            model, _ = L.build(kind, params)
+            v1 = float(model.process_drift())
+            t = rng.choice([0.5, 1.0, 2.0])
+            v2 = float(LevyProcess(model).deterministic_path(np.array([t]))[0]) - float(model.x0_value())
+            if kind == "hem":
+                a = f"(hem_a {_args(params, ('intensity', 'p', 'eta1', 'eta2'))})"
+                un = "unfold deterministic_path, levy_process_drift, hem_a."
+            elif kind == "merton":
+                a = f"(merton_a {_args(params, ('intensity', 'mu_j', 'sigma_j'))})"
+                un = "unfold deterministic_path, levy_process_drift, merton_a."
+            else:
+                a = rlit(float(model._original_drift))      # VG: the literal 0.0; CGMY: data (its drift is tied by the kappa cases)
+                un = "unfold deterministic_path, levy_process_drift."
+            tl, _ = tol_lit(v1)
+            cases.append(Case(("levy-pd", kind), f"Rabs (levy_process_drift {a} - {rlit(v1)}) <= {tl}", f"{un} {I80}",
+                              dict(model=kind, params=params, impl=v1)))
+            tl, _ = tol_lit(v2)
+            cases.append(Case(("levy-path", kind), f"Rabs (deterministic_path 0 (levy_process_drift {a}) {rlit(t)} - {rlit(v2)}) <= {tl}", f"{un} {I80}",
+                              dict(model=kind, params=params, t=t, impl=v2)))
+            res.count(("coq-levy-pd", kind, tuple(sorted(params.items())), t), kind=f"coq process_drift of the Levy model ({kind})")
+    return cases
+
+
+def _constants_cases(res, rng, per_group):
+    """cached constants of the Parameters classes, as __init__ leaves them and as initialisation() re-derives them after a setattr
+    (the calibration sequence), against the generated *_init_* / *_reinit_* definitions; and the closed-form Levy-Khintchine
+    integral VLn + VLp of C10_vg_exponent, evaluated at the implementation's cached constants, against levy_exponent(-1j*s).real"""
+    import copy
+    from scipy.special import gamma as sgamma
+    cases = []
+    for k in range(per_group):
+        # ---- VG
+        pv = L.vg_params(rng)
+        model, _ = L.build("vg", pv)
+        pars = model.parameters
+        pv2 = dict(pv, **{rng.choice(["sigma", "nu", "theta"]): None})
+        name = [n for n, v_ in pv2.items() if v_ is None][0]
+        pv2[name] = L.vg_params(rng)[name]
+        pars2 = copy.deepcopy(pars)
+        setattr(pars2, name, pv2[name])
+        pars2.initialisation()
+        for tag, prm, pr in (("init", pv, pars), ("reinit", pv2, pars2)):
+            for fld, attr in (("c", "_c"), ("lambda_p", "_lambda_p"), ("lambda_m", "_lambda_m")):
+                v = float(getattr(pr, attr))
+                tl, _ = tol_lit(v)
+                fn = f"vg_{tag}_{fld}"
+                cases.append(Case(("const", "vg", tag, fld), f"Rabs ({fn} {_args(prm, ('sigma', 'nu', 'theta'))} - {rlit(v)}) <= {tl}",
+                                  f"unfold {fn}. cbv zeta. {I80}", dict(model="vg", params=prm, changed=name if tag == "reinit" else None, impl=v)))
+            res.count(("coq-const", "vg", tag, tuple(sorted(prm.items()))), kind=f"coq cached constants vg ({tag})")
+        # closed-form LK integral at the rebuilt model's cached constants versus its exponent
+        m2 = type(model)(pars2)
+        lo, hi = -float(pars2._lambda_m), float(pars2._lambda_p)
+        s_ = round(rng.uniform(0.7 * lo, 0.7 * hi), 2) or 0.25 * hi
+        v = kappa_impl(m2, s_).real
+        tl, _ = tol_lit(v)
+        c_, lm_, lp_ = rlit(float(pars2._c)), rlit(float(pars2._lambda_m)), rlit(float(pars2._lambda_p))
+        cases.append(Case(("vg-lk-closed-form",), f"Rabs (VLn {c_} {lm_} {rlit(s_)} + VLp {c_} {lp_} {rlit(s_)} - {rlit(v)}) <= {tl}",
+                          f"unfold VLn, VLp. {I80}", dict(model="vg", params=pv2, s=s_, impl=v)))
+        res.count(("coq-vg-lk", tuple(sorted(pv2.items())), s_), kind="coq vg Levy-Khintchine closed form vs levy_exponent (after initialisation)")
+        # ---- HEM
+        ph = L.hem_params(rng)
+        from rpylib.model.levymodel.mixed.hem import HEMParameters
+        parh = HEMParameters(**ph)
+        name = rng.choice(["p", "eta1", "eta2"])
+        ph2 = dict(ph, **{name: L.hem_params(rng)[name]})
+        parh2 = copy.deepcopy(parh)
+        setattr(parh2, name, ph2[name])
+        parh2.initialisation()
+        for tag, prm, pr in (("init", ph, parh), ("reinit", ph2, parh2)):
+            v = float(pr._xi)
+            tl, _ = tol_lit(v)
+            cases.append(Case(("const", "hem", tag), f"Rabs (hem_{tag}_xi {_args(prm, ('sigma', 'p', 'eta1', 'eta2', 'intensity'))} - {rlit(v)}) <= {tl}",
+                              f"unfold hem_{tag}_xi. cbv zeta. {I80}", dict(model="hem", params=prm, changed=name if tag == "reinit" else None, impl=v)))
+            res.count(("coq-const", "hem", tag, tuple(sorted(prm.items()))), kind=f"coq cached constants hem ({tag})")
+        # ---- CGMY (Gamma is opaque: its value at -y is fed as data; positive g, m for Rpower)
+        pc = L.cgmy_params(rng)
+        if pc["y"] in (0, 1, 0.0, 1.0) or float(pc["y"]) == int(pc["y"]) and pc["y"] >= 0:
+            pc["y"] = 0.5
+        from rpylib.model.levymodel.purejump.cgmy import CGMYParameters
+        parc = CGMYParameters(**pc)
+        name = rng.choice(["c", "g", "m"])
+        pc2 = dict(pc, **{name: L.cgmy_params(rng)[name]})
+        parc2 = copy.deepcopy(parc)
+        setattr(parc2, name, pc2[name])
+        parc2.initialisation()
+        for tag, prm, pr in (("init", pc, parc), ("reinit", pc2, parc2)):
+            gv = float(sgamma(-prm["y"]))
+            if not math.isfinite(gv):
+                continue
+            for fld, attr in (("CGammamY", "_CGammamY"), ("GpowerY", "_GpowerY"), ("MpowerY", "_MpowerY")):
+                v = float(getattr(pr, attr))
+                tl, _ = tol_lit(v, rel=1e-8)
+                fn = f"cgmy_{tag}_{fld}"
+                cases.append(Case(("const", "cgmy", tag, fld),
+                                  f"forall Gamma : R -> R, Gamma (- {rlit(prm['y'])}) = {rlit(gv)} -> "
+                                  f"Rabs ({fn} Gamma {_args(prm, ('c', 'g', 'm', 'y'))} - {rlit(v)}) <= {tl}",
+                                  f"intros Gamma HG. unfold {fn}. cbv zeta. rewrite ?HG. unfold Rpower. {I80}",
+                                  dict(model="cgmy", params=prm, changed=name if tag == "reinit" else None, gamma_minus_y=gv, impl=v)))
+            res.count(("coq-const", "cgmy", tag, tuple(sorted(prm.items()))), kind=f"coq cached constants cgmy ({tag})")
+    return cases
+
+
 REPN = {1: "ZERO", 2: "CENTER", 3: "ONEONE", 4: "TILDE"}
 
 
@@ -774,7 +965,8 @@ def _conversion_cases(res, rng, per_group):
 def _coq(res, rng):
     cfg = _cfg(res)
     cases = _kappa_cases(res, rng, cfg["coq_per_group"]) + _drift_cases(res, rng, cfg["coq_per_group"]) + \
-        _conversion_cases(res, rng, cfg["coq_per_group"])
+        _conversion_cases(res, rng, cfg["coq_per_group"]) + _sampler_cases(res, rng, min(10, max(2, cfg["coq_per_group"] // 2))) + \
+        _constants_cases(res, rng, min(10, max(2, cfg["coq_per_group"] // 2)))
     nfiles, failed = L.run_cases(PROP, "cases", HEADER, cases, jobs=12, timeout=600)
     res.case_lemmas += len(cases)
     res.case_ok += len(cases) - len(failed)
@@ -845,7 +1037,7 @@ def replay(path):
     return 1
 
 
-LEVEL_TEXT = ("Proof (partial): 20 Coq statements (3 of them plain algebra, named _algebra). The four drift conversions of LevyTriplet are re-translated from levymodel.py on every run and "
+LEVEL_TEXT = ("Proof (partial): 26 Coq statements (5 of them plain algebra, named _algebra). The four drift conversions of LevyTriplet are re-translated from levymodel.py on every run and "
               "set_representation is proved path-independent and reversible for all triplets, measures and sequences of representations admissible "
               "for the measure (ZERO needs finite variation; the code raises otherwise). "
               "On the real axis (kappa(s) = psi(-i s)) the generated pure-jump exponents, cumulants and simulation drifts of HEM, Merton, VG, "
@@ -854,8 +1046,14 @@ LEVEL_TEXT = ("Proof (partial): 20 Coq statements (3 of them plain algebra, name
               "the exponent is proved to be the Levy-Khintchine integral of the generated density and the un-truncated Markov-chain drift "
               "to give the forward; with the truncation the code applies, a HEM instance (grid inside (-1,1)) is proved to grow at r - d minus the exponential "
               "moment of the removed tails, strictly below r - d for upward jumps only; for the other models this bias is measured by "
-              "the quadrature oracle (known finding F-C10-5). For Merton, VG and CGMY the exponent-versus-"
-              "density clause, higher cumulants and complex arguments are validated only by the mpmath quadrature / Cauchy-integral oracle.")
+              "the quadrature oracle (known finding F-C10-5). For Variance Gamma the exponent is proved to be the improper Levy-Khintchine integral "
+              "(singular at 0, both half-lines) of the generated density with the generated VGParameters constants on the whole strip (Frullani, no "
+              "hypothesis). The drift of the directly simulated non-exponential model (LevyModel.process_drift, regenerated) plus the first moment of "
+              "the generated density is cumulant1 for HEM and VG (Merton: algebra); HEM's jump_increment (regenerated pointwise) is proved to be the "
+              "inverse-cdf sampler of the normalised generated density; the constants re-derived by Parameters.initialisation() (regenerated) carry "
+              "the HEM direct-route identity and the VG Levy-Khintchine clause. For Merton and CGMY the exponent-versus-"
+              "density clause, and for all models higher cumulants and complex arguments, are validated only by the mpmath quadrature / Cauchy-integral oracle.")
 LEVEL_NOTE = ("Trusted: Coq kernel, standard real/classical axioms, py2coq (fail-closed), the hand model of levy_exponent on the real axis "
               "(complex arithmetic not modelled) tied by interval case lemmas on levy_exponent(-1j*s).real, Gamma as an opaque function.")
-TECHNIQUE = "Coq proof over R (field algebra, Coquelicot is_derive / auto_derive) on py2coq-generated drifts, exponents and cumulants + Interval case lemmas"
+TECHNIQUE = ("Coq proof over R (field algebra, Coquelicot is_derive / auto_derive / is_RInt_gen improper integrals) on py2coq-generated drifts, exponents, "
+             "cumulants, densities, jump samplers and cached constants + Interval case lemmas")
